@@ -142,33 +142,84 @@ PROPS["C07"] = {
 }
 
 _K2 = '{"ok", "http", "refuse", "reset_pre", "close_pre", "garbage", "hdr_then_reset", "reset_after", "close_after"}'
-_DISPATCH_PART = {
+
+
+def dgen(**kw):
+    """parameters for Dispatch_gen.cfg with defaults"""
+    p = {"NEPs": "{2}", "GKinds": _K2, "Balancers": '{"priority"}', "Framings": '{"cl"}', "Routes": '{"proxy"}',
+         "NSteps": 1, "WithHealth": "FALSE", "Pattern": 0, "BurstN": 1, "Placements": '{"all"}',
+         "ReqModels": '{"m1"}', "BootKinds": '{"up"}', "EpTypes": '{"openai-compatible"}'}
+    p.update(kw)
+    return {"module": "DispatchGen", "cfg": "Dispatch_gen.cfg", "params": p}
+
+
+_G_SINGLE2 = dgen(Balancers='{"priority", "round-robin"}', Framings='{"cl", "chunked"}')
+_G_BURST = dgen(GKinds='{"ok", "reset_after"}', Balancers='{"round-robin"}', Framings='{"chunked"}', Pattern=1, BurstN=8)
+_G_SINGLE3 = dgen(NEPs="{2, 3}", Balancers='{"priority", "round-robin", "least-connections"}',
+                  Framings='{"cl", "chunked"}', Routes='{"proxy", "provider"}')
+_G_FOUR = dgen(NEPs="{4}", GKinds='{"ok", "reset_pre", "refuse"}', Balancers='{"round-robin"}')
+_G_TWOSTEP = dgen(GKinds='{"ok", "refuse", "reset_pre", "reset_after"}', Balancers='{"round-robin"}', NSteps=3, WithHealth="TRUE")
+_G_BREAKER = dgen(GKinds='{"ok", "garbage", "close_pre"}', Balancers='{"round-robin"}', Pattern=4)
+_G_ELIG = dgen(NEPs="{2, 3}", GKinds='{"ok", "reset_pre"}', Balancers='{"priority", "round-robin", "least-connections"}',
+               Placements='{"all", "split"}', ReqModels='{"m1", "m2", "mx"}', BootKinds='{"up", "sick", "dead"}')
+
+_DISPATCH_BASE = {
     "name": "dispatch",
     "mc": [{"module": "Dispatch", "cfg": "Dispatch_mc.cfg"}],
-    "quick": {"gen": [
-        {"module": "DispatchGen", "cfg": "Dispatch_gen.cfg",
-         "params": {"NEPs": "{2}", "GKinds": _K2, "Balancers": '{"priority", "round-robin"}',
-                    "Framings": '{"cl", "chunked"}', "Routes": '{"proxy"}', "NSteps": 1, "WithHealth": "FALSE", "Pattern": 0, "BurstN": 1}},
-        {"module": "DispatchGen", "cfg": "Dispatch_gen.cfg",
-         "params": {"NEPs": "{2}", "GKinds": '{"ok", "reset_after", "reset_pre"}', "Balancers": '{"round-robin"}',
-                    "Framings": '{"chunked"}', "Routes": '{"proxy"}', "NSteps": 0, "WithHealth": "FALSE", "Pattern": 1, "BurstN": 6}},
-    ]},
-    "thorough": {"gen": [
-        {"module": "DispatchGen", "cfg": "Dispatch_gen.cfg",
-         "params": {"NEPs": "{2, 3}", "GKinds": _K2,
-                    "Balancers": '{"priority", "round-robin", "least-connections"}',
-                    "Framings": '{"cl", "chunked"}', "Routes": '{"proxy", "provider"}', "NSteps": 1, "WithHealth": "FALSE", "Pattern": 0, "BurstN": 1}},
-    ]},
     "pkg": "internal/app", "test": "TestVerif_Dispatch",
     "trace": {"module": "DispatchTrace", "cfg": "Dispatch_trace.cfg", "deque": True},
-    "nontrivial": lambda s: any(k != "ok" for st in s["steps"] if st["op"] == "req" for k in st["plans"].values()),
+    "nontrivial": lambda s: any(k != "ok" for st in s["steps"] if st["op"] != "health" for k in st["plans"].values())
+                            or any(b != "up" for b in s.get("boot", {}).values()),
 }
+
+
+def dpart(quick, thorough, sample_thorough=None):
+    p = dict(_DISPATCH_BASE)
+    p["quick"] = {"gen": quick}
+    p["thorough"] = {"gen": thorough}
+    if sample_thorough:
+        p["thorough"]["sample"] = sample_thorough
+    return p
+
+
+_DISPATCH_RULE = ("TLC enumerates fault assignments (every endpoint x fault kind incl. refused, reset before/after "
+                  "bytes, truncated, garbage) x engine x balancer x framing, concurrent bursts, breaker-opening "
+                  "sequences, model placement and boot health; each runs through the fully assembled server with "
+                  "socket-level scripted backends and a raw client; the trace is validated against Dispatch. "
+                  "Non-trivial = at least one endpoint misbehaves or is not healthy at boot.")
 PROPS["C02"] = {
-    "rule": "TLC enumerates fault assignments (every endpoint x fault kind incl. refused, reset before/after "
-            "bytes, truncated, garbage) x engine x balancer x framing; each runs through the fully assembled "
-            "server with socket-level scripted backends and a raw client; the trace is validated against Dispatch. "
-            "Non-trivial = at least one endpoint misbehaves.",
-    "exhaustive": True,
+    "rule": _DISPATCH_RULE, "exhaustive": True,
     "assumptions": ["backends stamp every body token with (endpoint, attempt); attribution of delivered bytes is by token"],
-    "parts": [_DISPATCH_PART],
+    "parts": [dpart([_G_SINGLE2, _G_BURST], [_G_SINGLE3, _G_BURST, _G_TWOSTEP], 6000)],
 }
+
+PROPS["C04"] = {
+    "rule": _DISPATCH_RULE, "exhaustive": False,
+    "assumptions": ["'timed out' dial failures are not produced in the sandbox (no black-hole address); "
+                    "refused and reset connections are"],
+    "parts": [dpart([_G_SINGLE2, _G_FOUR, _G_BREAKER, _G_TWOSTEP], [_G_SINGLE3, _G_FOUR, _G_BREAKER, _G_TWOSTEP], 8000)],
+}
+PROPS["C04"]["parts"][0]["quick"]["sample"] = 1200
+
+PROPS["C03"] = {
+    "rule": _DISPATCH_RULE + " Second part: the Balancer inputs of C06 (every list x status x priority) for the "
+            "'member of the list it was given or an error' clause.",
+    "exhaustive": False,
+    "assumptions": ["writes to the repository are ordered by the harness (health rounds are forced, not timed)"],
+    "parts": [dpart([_G_ELIG, _G_TWOSTEP], [_G_ELIG, _G_TWOSTEP, _G_SINGLE3], 9000), PROPS["C06"]["parts"][0]],
+}
+PROPS["C03"]["parts"][0]["quick"]["sample"] = 900
+
+_G_FAIL = dgen(NEPs="{1, 2}", GKinds='{"ok", "http", "http_big", "http_alt", "refuse", "reset_pre"}', Balancers='{"priority"}',
+               Routes='{"proxy", "provider", "anthropic", "anthropic_stream"}', ReqModels='{"m1", "mx"}',
+               BootKinds='{"up", "sick"}')
+_G_FAIL_NATIVE = dgen(NEPs="{1, 2}", GKinds='{"http", "http_alt", "refuse", "reset_pre"}', Balancers='{"priority"}',
+                      Routes='{"anthropic", "anthropic_stream"}', EpTypes='{"vllm"}')
+PROPS["C05"] = {
+    "rule": _DISPATCH_RULE + " For C05 the grid is failure cause (no healthy endpoint, unknown model, all refuse, all "
+            "reset, backend 5xx) x route family (proxy, provider, Anthropic buffered, Anthropic streaming) x engine.",
+    "exhaustive": False,
+    "assumptions": ["'promptly' = the client has its answer within 3 s while every configured timeout is >= 10 s"],
+    "parts": [dpart([_G_FAIL, _G_FAIL_NATIVE], [_G_FAIL, _G_FAIL_NATIVE, _G_SINGLE2])],
+}
+PROPS["C05"]["parts"][0]["quick"]["sample"] = 900
